@@ -329,6 +329,68 @@ impl Space for WrapperPairs {
     }
 }
 
+/// Worker process: the related pairs of zone names (shard `k` of `n`) through the SHARED provider of the convenience
+/// API - a, b, b, a - every answer next to the core's with a fresh provider. Prints one JSON line.
+pub fn names_worker(k: usize, n: usize) {
+    std::panic::set_hook(Box::new(|_| {}));
+    let names = crate::checks::c15::zone_names();
+    let pairs = crate::checks::c15::name_pairs(&names, false);
+    let ts = [-2_208_988_800_000_000_000i128, 1_593_561_600_000_000_000];
+    let mut bad = vec![];
+    let mut calls = 0u64;
+    for (idx, (a, b)) in pairs.iter().enumerate() {
+        if idx % n != k {
+            continue;
+        }
+        for (step, (z, t)) in [(*a, ts[0]), (*b, ts[0]), (*b, ts[1]), (*a, ts[1])].into_iter().enumerate() {
+            let name = &names[z as usize];
+            let zd = ZonedDateTime::try_new(t, Calendar::default(), TimeZone::IanaIdentifier(name.clone())).unwrap();
+            let got = std::panic::catch_unwind(|| format!("{:?}", zd.offset_nanoseconds().map_err(|e| e.kind()))).unwrap_or_else(|_| "panic".into());
+            let want = format!("{:?}", zd.offset_nanoseconds_with_provider(&FsTzdbProvider::default()).map_err(|e| e.kind()));
+            calls += 1;
+            if got != want {
+                bad.push(json!({"first": names[*a as usize], "second": names[*b as usize], "step": step, "zone": name, "got": got, "want": want}));
+            }
+        }
+    }
+    println!("{}", json!({"calls": calls, "bad": bad}));
+}
+
+/// Names through the shared provider: 16 worker processes, each with its own process-wide provider.
+struct SharedNames;
+
+impl Space for SharedNames {
+    fn name(&self) -> String {
+        "c20.shared_provider_name_pairs".into()
+    }
+    fn len(&self) -> u64 {
+        16
+    }
+    fn block(&self) -> u64 {
+        1
+    }
+    fn eval(&self, i: u64, out: &mut Out) {
+        let exe = std::env::current_exe().expect("exe");
+        let res = std::process::Command::new(exe).arg("c20names").arg(i.to_string()).arg("16").output();
+        let parsed: Option<Value> = res.ok().and_then(|o| String::from_utf8_lossy(&o.stdout).lines().last().and_then(|l| serde_json::from_str(l).ok()));
+        let Some(v) = parsed else {
+            out.transitions += 1;
+            out.fail("worker_died", vec![("shard", i.to_string())]);
+            return;
+        };
+        out.nontrivial += 1;
+        let calls = v["calls"].as_u64().unwrap_or(0);
+        let bad = v["bad"].as_array().cloned().unwrap_or_default();
+        out.transitions += calls.saturating_sub(bad.len() as u64);
+        for b in bad {
+            out.lockstep("call through the shared provider returns what it returns alone", &Ok(b["want"].as_str().unwrap_or("").to_string()), &Oc::Ok(b["got"].as_str().unwrap_or("").to_string()), |x, y| x == y, || vec![("first", b["first"].as_str().unwrap_or("").to_string()), ("second", b["second"].as_str().unwrap_or("").to_string()), ("step", b["step"].to_string()), ("zone", b["zone"].as_str().unwrap_or("").to_string())]);
+        }
+    }
+    fn describe(&self) -> Value {
+        json!({"worker_processes": 16, "pairs": "the related ordered pairs of zone names of c15.name_pair_histories", "queries_per_pair": 4})
+    }
+}
+
 struct Loom {
     results: Vec<Value>,
 }
@@ -391,6 +453,7 @@ pub fn run(env: &Env) -> i32 {
     }
     rep.run(&Histories { depth: env.tier.pick(3, 4) });
     rep.run(&WrapperPairs::new());
+    rep.run(&SharedNames);
     // audit: no other synchronisation primitives / unsafe Send-Sync in the crate that loom would not see
     let mut other_sync = vec![];
     for f in walk("/repo/src") {
